@@ -91,6 +91,21 @@ class UserAddEdge(ActionGroup):
             self.actions.append(
                 UpdateTrackIDs(self.tracks, successor, self.tracks.get_next_track_id())
             )
+            # the target keeps its track id, but it and everything downstream of it
+            # now belong to the lineage of the source
+            source_lineage_id = self.tracks.get_lineage_id(source)
+            if (
+                source_lineage_id is not None
+                and self.tracks.get_lineage_id(target) != source_lineage_id
+            ):
+                self.actions.append(
+                    UpdateTrackIDs(
+                        self.tracks,
+                        target,
+                        self.tracks.get_track_id(target),
+                        source_lineage_id,
+                    )
+                )
         else:
             raise InvalidActionError(
                 f"Expected degree of 0 or 1 before adding edge, got {out_degree_source}"
